@@ -3,7 +3,7 @@
 import json, subprocess
 CLAIMED = {
  "C01": ("exploration", "seq", "4.C01",
-   "Seeded swarm histories (put/get/delete, bucket create/get/get-or-create/delete at any depth, scans, commit, rollback, close+reopen; empty, long and larger-than-page keys; values from 0 B to several pages; shape-targeted deletions of whole leaves, leaf subsets, leaf boundaries, by key deletion and by bucket deletion; runs of dozens of sibling buckets so that leaves consist of bucket entries; repeated operations on the same key) are run through the real library over SimOS and compared call by call with a nested ordered-map model; after every commit a fresh transaction, a reopened handle and an independent parse of the raw file must all equal the model. Sampling, not proof: the space is infinite, the sample is large and biased to the tree shapes the statement names.",
+   "Seeded swarm histories (put/get/delete, bucket create/get/get-or-create/delete at any depth, scans, commit, rollback, close+reopen; empty, long and larger-than-page keys; values from 0 B to several pages; shape-targeted deletions of whole leaves, leaf subsets, leaf boundaries, by key deletion and by bucket deletion; runs of dozens of sibling buckets so that leaves consist of bucket entries; repeated operations on the same key; keys of about half a page; one run in eight at page size 1032; in one run in eight the headers are re-stamped in the legacy 0.10 format at a reopen and the history goes on; one run in a thousand loads more than 2^16 entries into one bucket in a single transaction and works beyond 2^16) are run through the real library over SimOS and compared call by call with a nested ordered-map model; after every commit a fresh transaction, a reopened handle and an independent parse of the raw file must all equal the model. Sampling, not proof: the space is infinite, the sample is large and biased to the tree shapes the statement names.",
    "model.rs and fsck.rs are trusted; each run is one seed, fully replayable; histories are bounded (<=12 transactions, <=300 steps each)",
    "deterministic simulation: seeded histories vs reference model (fault-free configuration)"),
  "C03": ("exploration", "seq-mr", "4.C03",
@@ -15,7 +15,7 @@ CLAIMED = {
    "fsck.rs encodes the pinned on-disk layout and is trusted; no layout preference (fill factor, page choice) is asserted",
    "deterministic simulation: invariant monitor (independent file checker) after every commit of seeded histories"),
  "C06": ("exploration", "seq+simos-log", "4.C06",
-   "Histories with a high rollback rate and read-only transactions that attempt every mutator. Oracles: a dropped write transaction and any read-only transaction issue no write/extend/sync call on the file (SimOS event log); after rollback a fresh transaction equals the prior model; every call that returned an error left the in-transaction view equal to the unchanged model; every mutator and commit on a read-only transaction returns the read-only error; opening an existing file issues no write, also with other open options and also when the header page that is not current was damaged at rest just before (media fault injected before one reopen in three: first sector, page-type byte, a record byte, the checksum, or the whole page); the accounting differential re-runs the history without the abandoned transactions and compares contents, high-water mark and free pages at every commit.",
+   "Histories with a high rollback rate and read-only transactions that attempt every mutator. Oracles: a dropped write transaction and any read-only transaction issue no write/extend/sync call on the file (SimOS event log); after rollback a fresh transaction equals the prior model; every call that returned an error left the in-transaction view equal to the unchanged model; every mutator and commit on a read-only transaction returns the read-only error; opening an existing file issues no write, also with other open options and also when the header page that is not current was damaged at rest just before (media fault injected before one reopen in three: first sector, page-type byte, a record byte, the checksum, or the whole page); in strict-mode runs every third commit is made while one byte of a live leaf page of a bucket the transaction has not opened is damaged behind the code's back: if the built-in check refuses the commit (InvalidDB) a fresh transaction must show exactly the prior state; the accounting differential re-runs the history without the abandoned transactions and compares contents, high-water mark and free pages at every commit.",
    "the syscall seam sees every route to the file (checked by the shadow/file comparison at the end of each run)",
    "deterministic simulation: SimOS event log + model around rollbacks, failed calls and read-only mutators"),
  "C07": ("exploration", "seq-sweep", "4.C07",
@@ -23,7 +23,7 @@ CLAIMED = {
    "model and walk are trusted; bounded transactions (<=25 random steps plus macros)",
    "deterministic simulation: full read sweep vs in-transaction model after every operation"),
  "C08": ("exploration", "seq-probe", "4.C08",
-   "The simulator supplies the buckets (empty, single-leaf, multi-level; committed and mid-transaction); on each, seek keys (every present key, its byte predecessor / successor / extension / truncation, the empty key, below-min, above-max) and pairs of range bounds of all nine kind combinations are enumerated and compared with the model: seek flag = membership, iteration continues at the key or an immediate neighbour with every later entry in order, next() after the end stays None, ranges yield exactly the entries within bounds, to_buckets / to_kv_pairs filter without skipping or duplicating. The statement has no fault or schedule dimension; this is the simulator's fault-free configuration with enumerated inputs per tree.",
+   "The simulator supplies the buckets (empty, single-leaf, multi-level; committed and mid-transaction); on each, seek keys (every present key, its byte predecessor / successor / extension / truncation, the empty key, below-min, above-max) and pairs of range bounds of all nine kind combinations are enumerated and compared with the model: seek flag = membership, iteration continues at the key or an immediate neighbour with every later entry in order, next() after the end stays None, ranges yield exactly the entries within bounds, to_buckets / to_kv_pairs filter without skipping or duplicating; the iterator adaptor routes (nth, skip, step_by, count, last, fold) agree with stepping entry by entry; a cursor that was seeked or iterated anywhere else in the tree seeks like a fresh one. The statement has no fault or schedule dimension; this is the simulator's fault-free configuration with enumerated inputs per tree.",
    "for buckets with more than ~8 probe keys the bound pairs are strided, not exhaustive (the evidence says how many inputs were enumerated)",
    "deterministic simulation (fault-free): enumerated seek/range inputs per simulated tree vs model"),
 }
@@ -34,15 +34,15 @@ PENDING = {}
 
 CLAIMED.update({
  "C02": ("fault_enumeration", "crash", "4.C02",
-   "A seeded history runs over SimOS, which logs every write, extension and sync with its bytes. For each chosen commit (all when few, otherwise biased to growth and large commits) the engine synthesises the images a crash could leave: process kill at every prefix of the commit's I/O and one point after it; power loss at the end of every sync epoch inside the commit and at return, with EVERY subset of the writes issued since the last completed sync when there are at most 10 (prefixes, leave-one-out, singletons and a seeded sample otherwise), sector-granular tears of surviving multi-sector writes, and word-granular tears of the header write (all prefixes, single words, all-but-one; all 2^13 word subsets for one commit per run in thorough). Every image is reopened through the public API: open must succeed, the raw file must pass the independent checker, the contents must be exactly the pre- or exactly the post-state (only post once commit has returned), and a further write transaction must commit and verify.",
+   "A seeded history runs over SimOS, which logs every write, extension and sync with its bytes. For each chosen commit (all when few, otherwise biased to growth and large commits) the engine synthesises the images a crash could leave: process kill at every prefix of the commit's I/O and one point after it; power loss at the end of every sync epoch inside the commit and at return, with EVERY subset of the writes issued since the last completed sync when there are at most 10 (prefixes, leave-one-out, singletons and a seeded sample otherwise), sector-granular tears of surviving multi-sector writes, and word-granular tears of the header write (all prefixes, single words, all-but-one; all 2^13 word subsets for one commit per run in thorough). Every image is reopened through the public API: open must succeed, the raw file must pass the independent checker, the contents must be exactly the pre- or exactly the post-state (only post once commit has returned), and a further write transaction must commit and verify (after a torn-header recovery too; every other such follow-up is preceded by an abandoned write transaction; at the second level the follow-up commit is crashed in turn: kill prefixes, leave-one-out subsets and word tears of its header write). In a third of the runs the headers are re-stamped in the legacy 0.10 format at a reopen, so commits on an upgraded file are crashed too.",
    "classic durable-media model: a write issued since the last completed fsync may persist or not, torn at 512 B sectors (header at 8 B words); lying firmware, misdirected writes and O_DIRECT are out of scope; crash during initial file creation is outside the quantifier",
    "deterministic simulation with fault injection: crash-image enumeration from the SimOS event log"),
  "C11": ("fault_enumeration", "fault", "4.C11",
-   "Pass 1 runs a seeded history fault-free and records the ordered I/O calls of every commit. Pass 2 re-executes the history once per (chosen commit, call index, applicable fault): write -> EIO / ENOSPC / short write then EIO / EINTR once / short write only; fsync -> EIO / EINTR; fallocate -> ENOSPC / EFBIG; mmap during growth -> ENOMEM; lseek -> EIO; plus sampled pairs. Oracle: commit returns (no panic), Err for non-benign and Ok for benign faults; on the same handle a fresh transaction shows exactly the old or exactly the new state and the raw file agrees; the rest of the history, three further write transactions (one with a multi-page value) and a reopen all verify against the model and the file checker.",
+   "Pass 1 runs a seeded history fault-free and records the ordered I/O calls of every commit. Pass 2 re-executes the history once per (chosen commit, call index, applicable fault): write -> EIO / ENOSPC / disk stays full / short write then EIO (cut at eighths of the buffer and at every 8-byte word of the first 96 bytes, i.e. inside the header record) / EINTR once / short write only; fsync -> EIO / EINTR; fallocate -> ENOSPC / EFBIG; mmap during growth -> ENOMEM; lseek -> EIO; plus sampled pairs. Oracle: commit returns (no panic), Err for non-benign and Ok for benign faults; on the same handle a fresh transaction shows exactly the old or exactly the new state and the raw file agrees; the rest of the history, three further write transactions (one with a multi-page value) and a reopen all verify against the model and the file checker.",
    "single faults are exhaustive over the calls of the chosen commits only; a failed fsync leaves the written data in the page cache (the harsher drop-dirty-pages model is not applied, the statement does not ask for it)",
    "deterministic simulation with fault injection: per-call errno / short-write plans at the libc seam"),
  "C12": ("fault_enumeration", "corrupt", "4.C12",
-   "After n = 0..6 commits whose states all differ and a clean close, every byte offset of either header page is mutated five ways (xor 0x01, xor 0x80, xor 0xff, zero, seeded byte), plus page zero / ones, record zero, seeded multi-byte overwrites and the other header's record copied over; one run in four first rewrites both headers in the legacy (SHA3) format. Each image is reopened: open must succeed without panic and show in full the state of the header the format still considers valid (the independent checker's rule decides whether a mutation invalidated the header; for bytes neither checksummed nor used either state is accepted).",
+   "After n = 0..6 commits whose states all differ and a clean close, every byte offset of either header page is mutated five ways (xor 0x01, xor 0x80, xor 0xff, zero, seeded byte), plus page zero / ones, record zero, seeded multi-byte overwrites and the other header's record copied over; one run in four first rewrites both headers in the legacy (SHA3) format, and in half of those the current code then makes one more commit (one header new-format, one legacy); one history in four ends with a commit that changed nothing. Each image is reopened: open must succeed without panic and show in full the state of the header the format still considers valid (the independent checker's rule decides whether a mutation invalidated the header; for bytes neither checksummed nor used either state is accepted).",
    "exhaustive over offsets and the listed mutations for the sampled histories; page size 1024 in quick, 1024-4096 in thorough",
    "deterministic simulation with fault injection: exhaustive single-byte media damage of either header"),
 })
@@ -50,7 +50,7 @@ CLAIMED.update({
 
 CLAIMED.update({
  "C10": ("exploration", "seq-long + shuttle", "4.C10",
-   "Long runs (300-600 transactions in quick, 1000-3000 in thorough) of six steady-state workloads (fixed-size overwrite, variable-size overwrite with multi-page values, sliding-window insert/delete, bucket create/delete churn, mixed, and small overwrites plus multi-page values on top of a large fragmented free list left by deleting alternating leaves of 300-2000 keys), with short keys or keys padded to a fifth / half of the page size (oversized branch pages), with periodic close+reopen or a reader pinned across a stretch. After every commit the independent checker reads the page high-water mark, live and free pages from the raw file. Oracle, independent of the number of transactions: hwm <= 5*L+16 where L is the largest number of live pages ever seen, the second half of the run (or, with a pinned reader, everything from five transactions after it closed) may not raise the mark by more than min(8+2L, 8+4D) pages where D is the largest number of pages one commit of that stretch writes (from the SimOS log), the pinned reader still reads its snapshot, and the file is no longer than the mark rounded up to the growth step plus one step. A reader-chain mode keeps overlapping readers open so that one is open whenever a writer begins (bound (life+7)*L+16). Live data L is the number of pages actually reachable in the file, so a leak cannot hide inside L. A second, threaded part (shuttle, like C04) lets two or three reader threads open and close transactions while a writer commits under seeded schedules; after every reader is gone ten more overwrite commits must plateau.",
+   "Long runs (300-600 transactions in quick, 1000-3000 in thorough) of six steady-state workloads (fixed-size overwrite, variable-size overwrite with multi-page values, sliding-window insert/delete, bucket create/delete churn, mixed, and small overwrites plus multi-page values on top of a large fragmented free list left by deleting alternating leaves of 300-2000 keys), with short keys or keys padded to a fifth / half of the page size (oversized branch pages), with periodic close+reopen or a reader pinned across a stretch; every third or fifth transaction may be preceded by the same work done in a transaction that is dropped; reader chains open twin readers on one snapshot; buckets are also committed empty and deleted later; a pinning reader that loses its snapshot is a violation of this property. After every commit the independent checker reads the page high-water mark, live and free pages from the raw file. Oracle, independent of the number of transactions: hwm <= 5*L+16 where L is the largest number of live pages ever seen, the second half of the run (or, with a pinned reader, everything from five transactions after it closed) may not raise the mark by more than min(8+2L, 8+4D) pages where D is the largest number of pages one commit of that stretch writes (from the SimOS log), the pinned reader still reads its snapshot, and the file is no longer than the mark rounded up to the growth step plus one step. A reader-chain mode keeps overlapping readers open so that one is open whenever a writer begins (bound (life+7)*L+16). Live data L is the number of pages actually reachable in the file, so a leak cannot hide inside L. A second, threaded part (shuttle, like C04) lets two or three reader threads open and close transactions while a writer commits under seeded schedules; after every reader is gone ten more overwrite commits must plateau.",
    "the constants are calibrated on the repaired tree with about 2x head-room; reader variants start with a 256 MiB sparse file and a run is skipped, not judged, if a commit would have to grow the file while the harness holds a reader on the committing thread (reader + growing writer on one thread self-deadlocks by construction); the threaded part runs on shuttle primitives",
    "deterministic simulation: long seeded histories, growth bound read from the raw file after every commit"),
  "C15": ("exploration", "compat", "4.C15",
@@ -70,11 +70,11 @@ CLAIMED.update({
    "sampling of schedules, not enumeration; sequentially consistent interleavings of lock operations and syscalls (jammdb has no atomics or lock-free code); both reader-writer priority policies std may have are explored, mutex hand-off order is the scheduler's choice",
    "deterministic simulation: seeded thread schedules (random / PCT / bounded preemption) over real code on shuttle primitives"),
  "C09": ("exploration", "shuttle", "4.C09",
-   "Two or three writer threads each do read-modify-write increments of one counter (one commit may carry a 9 MiB value so that it grows the file), one or two reader threads loop open/read/close; in a quarter of the runs a writer holds its transaction open until a reader has completed a whole transaction. Oracles: a flag set while a write transaction is open is never found set by another writer; the final counter equals the number of successful commits; every reader sees a counter between the commits completed before it began and those started by the time it ended, never decreasing; shuttle reports no deadlock and no execution exceeds the step bound (bounded liveness, in steps); half of the executions use a writer-preferring reader-writer lock (a reader arriving while a writer waits queues behind it, as on Linux), half an unfair one.",
+   "Two or three writer threads each do read-modify-write increments of one counter (one commit may carry a 9 MiB value so that it grows the file), one or two reader threads loop open/read/close and now and then call DB::check(); in a quarter of the runs a writer holds its transaction open until a reader has completed a whole transaction. Oracles: a flag set while a write transaction is open is never found set by another writer; the final counter equals the number of successful commits; every reader sees a counter between the commits completed before it began and those started by the time it ended, never decreasing; shuttle reports no deadlock and no execution exceeds the step bound (bounded liveness, in steps); half of the executions use a writer-preferring reader-writer lock (a reader arriving while a writer waits queues behind it, as on Linux), half an unfair one.",
    "every thread holds at most one transaction (the documented usage); starvation under unbounded unfair schedules is outside the statement",
    "deterministic simulation: seeded thread schedules with deadlock and step-bound detection"),
  "C13": ("exploration", "shuttle-mp", "4.C13",
-   "Openers of the same path run as simulated processes (shuttle tasks, each with its own descriptor, mapping and DB) over SimOS's flock table, which implements flock(2) per open file description; statx, open, fallocate, write, fsync, flock, mmap and close on the file are scheduling points, i.e. every ordering that can be forced at system-call boundaries. Two or three openers, file pre-existing or not: open, check that the marker of every opener that closed before this open began is present, commit an own marker, close. An opener may clone and drop a clone of its handle, commit enough to grow the file and keep using the database afterwards; a blocked flock may be interrupted by a signal (EINTR). Time is simulated (sleeps cost nothing and yield), a mapping keeps its open file description and the lock held through it alive until munmap, rename / unlink follow the path table. Oracles: never two openers inside, no opener gets an error or a panic, every marker survives, no deadlock, step bound.",
+   "Openers of the same path run as simulated processes (shuttle tasks, each with its own descriptor, mapping and DB) over SimOS's flock table, which implements flock(2) per open file description; statx, open, fallocate, write, fsync, flock, mmap and close on the file are scheduling points, i.e. every ordering that can be forced at system-call boundaries. Two or three openers, file pre-existing or not: open, check that the marker of every opener that closed before this open began is present, commit an own marker, close. In a third of the runs on a new file the disk is full when the first opener allocates the file (its open fails, a legitimate outcome). An opener may clone and drop a clone of its handle, commit enough to grow the file and keep using the database afterwards; a blocked flock may be interrupted by a signal (EINTR). Time is simulated (sleeps cost nothing and yield), a mapping keeps its open file description and the lock held through it alive until munmap, rename / unlink follow the path table, duplicated descriptors (dup, fcntl F_DUPFD) share their open file description. Oracles: never two openers inside, no opener gets an error or a panic, every marker survives, no deadlock, step bound.",
    "the kernel's own flock and real cross-process behaviour are not run; the lock table is a stub with flock(2) semantics",
    "deterministic simulation: openers as simulated processes over a simulated file lock, seeded orderings at syscall boundaries"),
 })
